@@ -145,15 +145,15 @@ def arm_env(subs, payload):
     return env, names
 
 
-def expected_value(variant):
-    """acceptable right-hand-side terms for `v[P0] = ...`"""
+def expected_value(variant, scalar=False):
+    """acceptable right-hand-side terms for `v[P0] = ...` (`scalar`: the loop's values are plain f32)"""
     kind = O.variant_kind(variant)
     base, form = T.split_variant(variant)
     if kind == "unary":
         return T.expected_unary(base, ("R", "P1"))
     if kind == "binary":
         l, r = T.operands_for_form(form, "P1", "P2")
-        return T.expected_binary(base, l, r)
+        return T.expected_binary(base, l, r, scalar=scalar)
     if kind == "CopyReg":
         return [("R", "P1")]
     if kind == "CopyImm":
@@ -163,7 +163,7 @@ def expected_value(variant):
     return None
 
 
-def check_arm(variant, subs, arm, payload, tracing):
+def check_arm(variant, subs, arm, payload, tracing, scalar=False):
     """-> (problems, info) for one interpreter arm"""
     problems = []
     env, names = arm_env(subs, payload)
@@ -208,7 +208,7 @@ def check_arm(variant, subs, arm, payload, tracing):
         if a is not None and a[2] != ("R", "P0"):
             problems.append("Store writes %s to memory, expected v[%s]" % (T.show(a[2]), names[0]))
     else:
-        exp = expected_value(variant)
+        exp = expected_value(variant, scalar)
         if exp is None:
             problems.append("no meaning known for variant %s" % variant)
             return problems, info
@@ -252,7 +252,7 @@ def check_loop(rule, label, root=None, want_choice_info=None, only=None):
         seen.add(variant)
         if only is not None and variant not in only:
             continue
-        problems, info = check_arm(variant, subs, arm, payloads[variant], tracing)
+        problems, info = check_arm(variant, subs, arm, payloads[variant], tracing, scalar=label in ("point", "float_slice"))
         if want_choice_info is not None:
             want_choice_info.append((variant, subs, arm, info, fn))
         if problems:
